@@ -9,6 +9,7 @@ import (
 	"errors"
 	"fmt"
 	"io"
+	"math"
 	"sort"
 	"testing"
 	"time"
@@ -51,6 +52,9 @@ type Case struct {
 	Dir      string  `json:"dir"` // "." or "d"
 	Children []Child `json:"children"`
 	Pages    []int   `json:"pages"`
+	// Pre: what happens between opening the handle and reading its first page: "hstat" (Stat on the handle),
+	// "add" (a new child appears), "remove" (the first regular child disappears). Nothing changes between pages.
+	Pre []string `json:"pre,omitempty"`
 }
 
 var kinds = []string{"mem", "kvplain", "mount", "submem", "cache", "tar", "osfs"}
@@ -253,6 +257,34 @@ func checkInner(c Case) (string, string) {
 		return base + " open-dir", err.Error()
 	}
 	defer func() { _ = f.Close() }()
+	for _, pre := range c.Pre {
+		switch pre {
+		case "hstat":
+			fi, err := f.Stat()
+			if err != nil || !fi.IsDir() {
+				return base + " handle-stat", fmt.Sprintf("Stat on the directory handle = %v, %v", fi, err)
+			}
+		case "add":
+			ch := Child{Name: "zlate", Size: 3}
+			if _, ok := byName[ch.Name]; ok {
+				continue
+			}
+			must(hackpadfs.WriteFullFile(b.fs, childPath(ch.Name), []byte("new"), 0o640))
+			want = append(want, ch)
+			wantNames = append(wantNames, ch.Name)
+			byName[ch.Name] = ch
+		case "remove":
+			for i, ch := range want {
+				if !ch.IsDir {
+					must(hackpadfs.Remove(b.fs, childPath(ch.Name)))
+					want = append(append([]Child{}, want[:i]...), want[i+1:]...)
+					wantNames = append(append([]string{}, wantNames[:i]...), wantNames[i+1:]...)
+					delete(byName, ch.Name)
+					break
+				}
+			}
+		}
+	}
 	seen := map[string]int{}
 	total := 0
 	fresh := true
@@ -384,11 +416,20 @@ func genCase(t *rapid.T, kind string) Case {
 	}
 	np := rapid.IntRange(1, 8).Draw(t, "npages")
 	for i := 0; i < np; i++ {
-		opts := []int{1, 2, n - 1, n, n + 1, 1000000, 3, 7}
+		opts := []int{1, 2, n - 1, n, n + 1, 1000000, 3, 7, math.MaxInt32, math.MaxInt}
 		if rapid.IntRange(0, 6).Draw(t, "nonpos") == 0 {
-			opts = []int{0, -1}
+			opts = []int{0, -1, math.MinInt}
 		}
 		c.Pages = append(c.Pages, rapid.SampledFrom(opts).Draw(t, "page"))
+	}
+	// between Open and the first page: the listing is the directory's content when it is read, not when the handle was
+	// opened or first asked about itself
+	pre := []string{"hstat"}
+	if kind != "cache" && kind != "tar" {
+		pre = []string{"hstat", "add", "remove"}
+	}
+	if rapid.IntRange(0, 2).Draw(t, "withpre") == 0 {
+		c.Pre = rapid.SliceOfN(rapid.SampledFrom(pre), 1, 3).Draw(t, "pre")
 	}
 	return c
 }
@@ -417,6 +458,9 @@ func run(t *testing.T, kind string) {
 		}
 		if len(c.Children) >= 2 && pos >= 2 {
 			rec.NonTrivial()
+		}
+		if len(c.Pre) > 0 {
+			rec.Class("pre-page-activity")
 		}
 		rec.Class(fmt.Sprintf("children:%d-%d", len(c.Children)/10*10, len(c.Children)/10*10+9))
 		if sig, msg := check(c); sig != "" {
